@@ -6,7 +6,15 @@ def known(meta, msg):
     import vlib
 
     for k in vlib.known_findings().get("open", []):
-        if k["property"] == "C10" and k.get("signature") == "reload-changes-queue-path" and meta.get("scenario") == "reload_new_queue" and msg.startswith("recovery"):
+        if k["property"] != "C10":
+            continue
+        if k.get("signature") == "reload-changes-queue-path" and meta.get("scenario") == "reload_new_queue" and msg.startswith("recovery"):
+            return k["id"]
+        # K4: a reported failure inside the snapshot walk (after the snapshot directory was created) leaves the partial snapshot
+        if k.get("signature") == "partial-snapshot" and msg.startswith("partial_snapshot") and meta.get("call") in ("linkat", "mkdirat", "access", "rmdir", "unlink", "fts_open", "open", "close"):
+            return k["id"]
+        # K5: a failing access() in the snapshot walk is read as "the member left the project"
+        if k.get("signature") == "access-failure-swallowed" and msg.startswith("snapshot_members") and meta.get("call") == "access":
             return k["id"]
     return None
 
@@ -25,7 +33,7 @@ def alloc_phase(rep, exe_impl, exe_model):
 
 
 def main(rep):
-    wk.standard_main(rep, fault=True, extra=alloc_phase, fault_monitors=["fault_reported", "expected_handled", "recovery", "no_partial", "position_kept", "position_not_ahead", "store_immutable", "queue_form"],
+    wk.standard_main(rep, fault=True, extra=alloc_phase, fault_monitors=["fault_reported", "expected_handled", "completed_exact", "partial_snapshot", "snapshot_members", "recovery", "no_partial", "position_kept", "position_not_ahead", "store_immutable", "queue_form"],
                      known=known,
                      rule=("one failing system call at a time: every call index of the implementation's own log of the operation under test in each scenario "
                            "family x plausible errnos of that call (open: EACCES ENOSPC EMFILE EIO ENOENT, EEXIST at an exclusive create; mkdir: EACCES ENOSPC; sendfile/write: EIO ENOSPC; "
@@ -34,4 +42,4 @@ def main(rep):
 
 
 def replay(rep, path):
-    return wk.replay_world(rep, path, ["fault_reported", "expected_handled", "recovery", "no_partial", "store_immutable"])
+    return wk.replay_world(rep, path, ["fault_reported", "expected_handled", "completed_exact", "partial_snapshot", "snapshot_members", "recovery", "no_partial", "store_immutable"])
